@@ -67,4 +67,17 @@ CandClauses(c, want) ==
         IF df[1] # "" THEN <<[clause |-> "C02." \o df[1], why |-> d.mn \o (IF df[1] = "imm" THEN ":" \o ToString(d.ops[df[2]].sz) ELSE ""), op |-> df[2], row |-> d.opc]>>
         ELSE IF StrayPrefix(d) THEN <<[clause |-> "C02.prefix", why |-> d.mn, op |-> 0, row |-> d.opc]>>
         ELSE <<>>
+\* ---------------------------------------------------------------- from a reference decode back to a line (C03, C09)
+\* the decoded instruction as an abstract line (mn, ops) that Syntax.Layout can spell; branch displacements, far pointers,
+\* 16-bit addressing forms and lock/rep prefixes have no spelling here
+PlainPrefixes(d) == ~D!Has(d.pfx, 240) /\ ((D!Has(d.pfx, 242) \/ D!Has(d.pfx, 243)) => "mp" \in d.use)
+Renderable(d) == /\ d.ok /\ PlainPrefixes(d)
+                 /\ \A j \in 1..Len(d.ops) : d.ops[j].k \in {"reg", "imm"} \/ (d.ops[j].k = "mem" /\ d.ops[j].aw = 32)
+OpOf(o) == IF o.k = "reg" THEN [k |-> "reg", c |-> o.c, n |-> o.n]
+           ELSE IF o.k = "imm" THEN [k |-> "imm", v |-> Norm(o.v, 32), neg |-> FALSE, sym |-> ""]
+           ELSE [k |-> "mem", sz |-> o.sz, seg |-> o.seg, b |-> o.b, i |-> o.i, sc |-> o.sc, d |-> o.d, aw |-> 32, sym |-> ""]
+InsOf(d) == [mn |-> d.mn, ops |-> [j \in 1..Len(d.ops) |-> OpOf(d.ops[j])]]
+\* "instructions a compiler emits": no raw relative displacement, no absolute numeric memory operand (C09)
+Emittable(d) == \A j \in 1..Len(d.ops) : /\ d.ops[j].k \notin {"rel", "far"}
+                                           /\ ~(d.ops[j].k = "mem" /\ d.ops[j].b = -1 /\ d.ops[j].i = -1)
 =============================================================================
